@@ -131,4 +131,38 @@ theorem listing_opFirst (gs L : List Group) (hL : ListingOf gs L) : ListingOf (o
   rw [opFirst_eq, opFirst_eq]
   exact ⟨(listing_opHead gs L hL).1, (listing_opHead gs L hL).2, listing_eraseP gs L hL⟩
 
+/-- "nothing else changes": when the message has an operation group, `opFirst` only reorders -/
+theorem opFirst_perm : ∀ (gs : List Group), gs.any opP = true → (opFirst gs).Perm gs := by
+  intro gs h
+  rw [opFirst_eq]
+  induction gs with
+  | nil => simp at h
+  | cons g r ih =>
+    unfold opHead
+    rw [List.find?_cons, List.eraseP_cons]
+    cases hg : opP g with
+    | true => simp
+    | false =>
+      have hr : r.any opP = true := by simpa [List.any_cons, hg] using h
+      have ih' := ih hr
+      unfold opHead at ih'
+      simp only [Bool.false_eq_true, ↓reduceIte]
+      exact (List.Perm.swap _ _ _).trans (List.Perm.cons g ih')
+
+/-- …and when it has none, an empty operation group is put in front of the unchanged list -/
+theorem opFirst_none (gs : List Group) (h : gs.any opP = false) :
+    opFirst gs = ⟨.OperationAttributes, []⟩ :: gs := by
+  rw [opFirst_eq]
+  have hf : gs.find? opP = none := by
+    rw [List.find?_eq_none]; intro x hx hp
+    have : gs.any opP = true := List.any_eq_true.mpr ⟨x, hx, hp⟩
+    rw [h] at this; cases this
+  have he : gs.eraseP opP = gs := by
+    apply List.eraseP_of_forall_not
+    intro x hx hp
+    have : gs.any opP = true := List.any_eq_true.mpr ⟨x, hx, hp⟩
+    rw [h] at this; cases this
+  unfold opHead
+  rw [hf, he]; rfl
+
 end Ipp
